@@ -21,6 +21,7 @@ EXPLANATION = (
     "(R4) the assignment / op-assignment dispatchers cover the same kinds as the read dispatchers. Not decided: value-level resize semantics."
     ' (R2, extended) an assignment kernel that writes the sink through fewer index positions than the assignment form has (a linear offset) is reported: the single bounds check against len() lets an out-of-range row or column address another element.'
     " (R5) operator families: for every index form the Add/Sub/Mul/Div (and plain) assign kernels have the same addressing normal form modulo the operator, so one member reading its source or sink differently from its siblings is reported; (R6) the assignment compilers hand (sink, index..., source) to the kernels in the role order the kernels' struct fields declare."
+    ' (R4, chained dispatchers) in every `kind1-arms(arg).or_else(kind2-arms(arg))...` assignment dispatcher each numeric kind is tried by as many kernel families as the other kinds.'
 )
 
 OPS = {"Add": "+", "Sub": "-", "Mul": "*", "Div": "/"}
